@@ -32,9 +32,10 @@ import (
 
 // ---------- capacity ----------
 type capOp struct {
-	Op  string `json:"op"`
-	Id  string `json:"id"`
-	Err string `json:"err,omitempty"`
+	Op   string `json:"op"`
+	Id   string `json:"id"`
+	Prop string `json:"prop,omitempty"`
+	Err  string `json:"err,omitempty"`
 }
 
 func snap(loc *core.Location, st *core.MemStorage) string {
@@ -72,7 +73,12 @@ func capacity(r *rep.Report, rng *rand.Rand, n int) {
 		steps := 8 + rng.Intn(16)
 		for s := 0; s < steps; s++ {
 			o := capOp{Id: ids[rng.Intn(max+2)]}
-			switch rng.Intn(7) {
+			switch rng.Intn(8) {
+			case 7:
+				// a property-shaped fact, added under the id of (possibly) an existing fact: it is stored
+				// under its canonical property id, i.e. as one more record
+				o.Op = "addProp"
+				o.Prop = fmt.Sprintf("p%d", rng.Intn(3))
 			case 0, 1, 2:
 				o.Op = "addFact"
 			case 3, 4:
@@ -90,6 +96,8 @@ func capacity(r *rep.Report, rng *rand.Rand, n int) {
 				_, err = loc.AddFact(drv.Ctx(), o.Id, core.Map{"v": float64(s)})
 			case "addRule":
 				_, err = loc.AddRule(drv.Ctx(), o.Id, core.Map{"when": map[string]interface{}{"pattern": map[string]interface{}{"e": o.Id}}, "action": map[string]interface{}{"code": "1"}})
+			case "addProp":
+				_, err = loc.AddFact(drv.Ctx(), o.Id, core.Map{"!" + o.Prop: float64(s)})
 			case "remFact":
 				_, err = loc.RemFact(drv.Ctx(), o.Id)
 			case "remRule":
@@ -101,7 +109,11 @@ func capacity(r *rep.Report, rng *rand.Rand, n int) {
 			wit := rep.J{"kind": "capacity", "state": kind, "max": max, "history": run, "size": size}
 			switch {
 			case strings.HasPrefix(o.Op, "add") && err == nil:
-				model[o.Id] = true
+				if o.Op == "addProp" {
+					model["!."+o.Prop] = true
+				} else {
+					model[o.Id] = true
+				}
 				if size > max {
 					r.Violate("", fmt.Sprintf("after an acknowledged add the location holds %d items, maximum is %d", size, max), wit)
 				}
